@@ -114,7 +114,8 @@ def explore_tokens(S, N):
     return found
 
 
-MCATS = ['text', 'space', 'par', 'expr', 'strong', 'line', 'block', 'hash', 'item']
+MCATS = ['text', 'space', 'par', 'expr', 'strong', 'line', 'block', 'hash', 'item', 'inline']
+INLINE_KINDS = ['Escape', 'Shorthand', 'SmartQuote', 'Link', 'Label', 'Ref']     # prose that is not a Text token (the property lists them)
 
 
 def explore_markup(S, K, want=('C08',)):
@@ -176,6 +177,10 @@ def explore_markup(S, K, want=('C08',)):
                     kids.append(Node(kt.k('FuncCall'), text=Str.lit('f%d' % i)))
                 elif c == 'strong':
                     kids.append(Node(kt.k('Strong'), text=Str.lit('s%d' % i)))
+                elif c == 'inline':
+                    ik = z3.BitVec('inline_kind%d' % i, 8)
+                    ctx.assume(T.kind_in(ik, {kt.k(x) for x in INLINE_KINDS}))
+                    kids.append(Node(ik, text=Str.lit('q%d' % i)))
                 elif c == 'line':
                     kids.append(Node(kt.k('LineComment'), text=Str.lit('//c%d' % i)))
                 elif c == 'block':
@@ -193,6 +198,7 @@ def explore_markup(S, K, want=('C08',)):
             def describe(mdl):
                 return dict(children=list(combo), scope=('Document', 'ContentBlock', 'Strong', 'Item')[model_int(mdl, scope)], multiline=model_bool(mdl, ml),
                             suppressed=model_bool(mdl, c0_.get('break_suppressed')),
+                            inline_kinds={str(i): kt.names[model_int(mdl, kids[i].kind)] for i, c in enumerate(combo) if c == 'inline'},
                             blank_lines_upper_bound=(model_int(mdl, cfg.get('blank_lines_upper_bound')) if is_sym(cfg.get('blank_lines_upper_bound')) else cfg.get('blank_lines_upper_bound')),
                             ws={str(i): kids[i].text.concrete(mdl) for i, c in enumerate(combo) if c in ('space', 'par')})
             try:
@@ -209,7 +215,7 @@ def explore_markup(S, K, want=('C08',)):
             def key_of(i):
                 c = combo[i]
                 nd = kids[i]
-                if c in ('expr', 'strong', 'item'):
+                if c in ('expr', 'strong', 'item', 'inline'):
                     return ('o', nd.nid)
                 return ('t', nd.text.concrete())
             for mode, at in atoms_modes(d).items():
@@ -265,14 +271,16 @@ def explore_markup(S, K, want=('C08',)):
                     cur = []
             lines.append(cur)
             conds = []
+            conds_inline = []
             for i, c in enumerate(combo):
                 if c in ('expr', 'strong') and kids[i].nid in calls:
                     cx = calls[kids[i].nid]
                     conds.append(i_eq(cx.get('mode').disc, 0, 64))     # markup mode
                     # same source line = no whitespace-with-newline / parbreak between
                     mixed = False
+                    mixed_inline = False
                     for j, c2 in enumerate(combo):
-                        if c2 in ('text', 'strong') and j != i or (c2 == 'strong' and j == i):
+                        if c2 in ('text', 'strong', 'inline') and j != i or (c2 == 'strong' and j == i):
                             lo, hi = min(i, j), max(i, j)
                             sep = False
                             for q in range(lo + 1, hi):
@@ -280,10 +288,17 @@ def explore_markup(S, K, want=('C08',)):
                                     sep = True
                                 elif combo[q] == 'space':
                                     sep = b_or(sep, has_newline(kids[q].text))
-                            mixed = b_or(mixed, b_not(sep))
+                            if c2 == 'inline':
+                                mixed_inline = b_or(mixed_inline, b_not(sep))
+                            else:
+                                mixed = b_or(mixed, b_not(sep))
                     conds.append(b_implies(mixed, cx.get('break_suppressed')))
-                    conds.append(b_implies(b_and(b_not(mixed), b_not(c0_.get('break_suppressed'))), b_not(cx.get('break_suppressed'))))
+                    conds.append(b_implies(b_and(b_not(mixed), b_not(mixed_inline), b_not(c0_.get('break_suppressed'))), b_not(cx.get('break_suppressed'))))
+                    # prose that is not a Text token (escape, shorthand, smart quote, link, label, reference) counts as well
+                    conds_inline.append(b_implies(b_and(mixed_inline, b_not(mixed)), cx.get('break_suppressed')))
             ctx.must_hold(b_and(*conds), 'C08:expression-on-a-text-line-may-break', describe)
+            if conds_inline:
+                ctx.must_hold(b_and(*conds_inline), 'C08:expression-on-a-line-with-inline-prose-may-break', describe)
             if 'par' in combo:
                 ctx.witness('markup with paragraph break')
             if 'text' in combo and 'expr' in combo:
@@ -360,7 +375,7 @@ def report(S, prop, found):
     for lab, infos in groups.items():
         hit = None
         for info in infos[:6]:
-            w = confirm_token(S, info) if 'token' in info else confirm_markup(S, info)
+            w = confirm_token(S, info) if 'token' in info else confirm_markup(S, dict(info, label=lab))
             if w:
                 hit = (info, w)
                 break
@@ -374,7 +389,8 @@ def report(S, prop, found):
             S.inconclusive.append('%s: no solver model reproduced natively (%r)' % (lab, infos[0]))
 
 
-RENDER = {'text': 'w%d', 'expr': '#f%d()', 'strong': '*s%d*', 'line': '// c%d', 'block': '/* c%d */', 'hash': '', 'item': '- i%d'}
+INLINE_RENDER = {'Escape': '\\#', 'Shorthand': '---', 'SmartQuote': '"', 'Link': 'https://a.b/c', 'Label': '<l%d>', 'Ref': '@r%d'}
+RENDER = {'inline': None, 'text': 'w%d', 'expr': '#f%d()', 'strong': '*s%d*', 'line': '// c%d', 'block': '/* c%d */', 'hash': '', 'item': '- i%d'}
 
 
 def confirm_markup(S, info):
@@ -388,9 +404,22 @@ def confirm_markup(S, info):
             src += ws.get(str(i), ' ')
             toks.append(None)
         else:
-            t = RENDER[c] % i if '%d' in RENDER[c] else RENDER[c]
+            r = RENDER[c] if c != 'inline' else INLINE_RENDER[(info.get('inline_kinds') or {}).get(str(i), 'Shorthand')]
+            t = r % i if '%d' in r else r
             src += t
             toks.append(t if t else None)
+    if 'may-break' in info.get('label', ''):
+        # the line with an expression that can break: at a narrow width its pieces must stay on one line
+        line = src.replace('()', '(aaaa, bbbb)')
+        for v in (line + '\n', '#[' + line + ']\n'):
+            if S.driver.call('erroneous', hexs(v))[1] == '1' or '\n' in line.strip('\n'):
+                continue
+            r = S.driver.call('format', hexs(v), 10, 2, 0)
+            if r[0] == 'ok' and unhexs(r[1]).strip('\n').count('\n') > v.strip('\n').count('\n') and '(aaaa, bbbb)' not in unhexs(r[1]):
+                out = unhexs(r[1])
+                return dict(what='prose and embedded code that were on one line are spread over several: %s -> %s (width 10)' % (show(v), show(out)),
+                            api=dict(api='Typstyle::format_content', source=v, width=10, output=out))
+        return None
     variants = [src + '\n', '[' + src + ']\n' if False else '#[' + src + ']\n', '*' + src + '*\n' if 'strong' not in kinds and 'par' not in kinds else None]
     for v in variants:
         if v is None or S.driver.call('erroneous', hexs(v))[1] == '1':
